@@ -229,6 +229,67 @@ func reconfigureScenario(toNil bool, bound int) *vsched.Scenario {
 	}
 }
 
+// resetScenario: handlers that were set and then reset to nil are gone: "every combination of nil/non-nil observe
+// and subscribe handlers" includes nil given after non-nil (Cor.YieldFromIO relies on SubscribeOn(nil)). Which of
+// the two is reset is the parameter; what is reset runs on the subscribing goroutine again.
+func resetScenario(resetOb, resetSub bool, bound int) *vsched.Scenario {
+	fam := "handlers-reset-to-nil"
+	return &vsched.Scenario{
+		Name:  fmt.Sprintf("handlers-reset/observeOn(nil)=%v/subscribeOn(nil)=%v", resetOb, resetSub),
+		Bound: bound,
+		Body: func() {
+			m := fpgo.MonadIONewGenerics(func() int {
+				vsched.Event("effect", vsched.ThreadName())
+				return 5
+			})
+			h1 := fpgo.Handler.NewByCh(make(chan func(), 1))
+			h2 := fpgo.Handler.NewByCh(make(chan func(), 1))
+			h1.Post(func() { vsched.Event("h1-thread", vsched.ThreadName()) })
+			h2.Post(func() { vsched.Event("h2-thread", vsched.ThreadName()) })
+			m.ObserveOn(h1).SubscribeOn(h2)
+			if resetOb {
+				m.ObserveOn(nil)
+			}
+			if resetSub {
+				m.SubscribeOn(nil)
+			}
+			vsched.Event("caller", vsched.ThreadName())
+			m.Subscribe(fpgo.Subscription[int]{OnNext: func(v int) { vsched.Event("onnext", v, vsched.ThreadName()) }})
+		},
+		Check: func(r *vsched.Result) []vsched.Failure {
+			fs := e1.Basic("C11", fam, r, nil)
+			if len(r.Panics) > 0 || len(fs) > 0 {
+				return fs
+			}
+			thr := map[string]string{}
+			for _, e := range r.Events {
+				if e.Kind == "h1-thread" || e.Kind == "h2-thread" || e.Kind == "caller" {
+					thr[e.Kind] = e.Args[0].(string)
+				}
+			}
+			wantEffect, wantNext := thr["h1-thread"], thr["h2-thread"]
+			if resetOb {
+				wantEffect = thr["caller"]
+			}
+			if resetSub {
+				wantNext = wantEffect // no subscribe handler: OnNext runs where the effect ran
+			}
+			for _, e := range r.Events {
+				if e.Kind == "effect" && e.Args[0].(string) != wantEffect {
+					fs = append(fs, e1.Fail("C11|"+fam+"|effect-goroutine", "after ObserveOn(h1).SubscribeOn(h2) and the resets ObserveOn(nil)=%v SubscribeOn(nil)=%v the effect ran on %s, expected %s", resetOb, resetSub, e.Args[0], wantEffect))
+				}
+				if e.Kind == "onnext" && e.Args[1].(string) != wantNext {
+					fs = append(fs, e1.Fail("C11|"+fam+"|onnext-goroutine", "after ObserveOn(h1).SubscribeOn(h2) and the resets ObserveOn(nil)=%v SubscribeOn(nil)=%v OnNext ran on %s, expected %s", resetOb, resetSub, e.Args[1], wantNext))
+				}
+			}
+			if e1.Count(r, "effect") != 1 || e1.Count(r, "onnext") != 1 {
+				fs = append(fs, e1.Fail("C11|"+fam+"|onnext-count", "effect ran %d time(s), OnNext %d time(s)", e1.Count(r, "effect"), e1.Count(r, "onnext")))
+			}
+			return fs
+		},
+	}
+}
+
 // noOnNextScenario: "a Subscription without OnNext runs nothing" for every combination of handlers - neither
 // the outer effect, nor the FlatMap function, nor the inner effect, on any goroutine, however long one waits
 // (the run ends at quiescence of all handler goroutines); a normal subscription made afterwards runs each once.
@@ -311,6 +372,7 @@ func scenarios(tier string) []*vsched.Scenario {
 		out = append(out, isolationScenario(c, false, 1), isolationScenario(c, true, 1))
 	}
 	out = append(out, reconfigureScenario(true, b), reconfigureScenario(false, b))
+	out = append(out, resetScenario(true, true, b), resetScenario(true, false, b), resetScenario(false, true, b))
 	if tier == "thorough" {
 		out = append(out, handlerScenario(true, true, 3, 1, 2), handlerScenario(false, true, 3, 3, 2))
 	}
